@@ -114,16 +114,20 @@ class Ctx:
                 kw = _known_writes().get(f'{fi.module}:{qn}')
                 if kw is not None:
                     from .defined import written_attrs
-                    new = sorted(written_attrs(fi.node) - set(kw))
+                    now = written_attrs(fi.node)
+                    new = sorted(a for a in now if a not in kw)
+                    more = sorted(f'{a}: {now[a]} writing sites, {kw[a]} when reviewed' for a in now if a in kw and now[a] > kw[a])
                     where = fi.node
-                    if new:
+                    for a in new or [m.split(':')[0] for m in more]:
                         for n in ast.walk(fi.node):
-                            if isinstance(n, ast.Attribute) and n.attr == new[0] and isinstance(n.value, ast.Name) and n.value.id in ('self', 'cls'):
+                            if isinstance(n, ast.Attribute) and n.attr == a and isinstance(n.value, ast.Name) and n.value.id in ('self', 'cls'):
                                 where = n
-                                break
+                        break
+                    new = new + more
                     chk.ob(f'{chk.pid}.writers', qn, not new, loc(fi, where),
-                           'the function writes only the attributes it wrote when the rules were written: a new write is a side effect (a second '
-                           'writer of a field the phase logic owns, a cache that can go stale) that no clause of the property accounts for',
+                           'the function writes the attributes it wrote when the rules were written, at no more places: a new write is a side effect '
+                           '(a second writer of a field the phase logic owns, a cache that can go stale, a value overridden after it was set as '
+                           'prescribed) that no clause of the property accounts for',
                            got=new or '')
             dyn = _dynamic(self.prog, fi)
             chk.ob(f'{chk.pid}.static', qn, not dyn, loc(fi, dyn[0][0]) if dyn else loc(fi, fi.node),
